@@ -20,7 +20,11 @@ Proof. exact stack_reads. Qed.
    base map, the hidden prefix included (Example C23x_skipkeys_snapshot). *)
 Theorem C23x_snapshot_reads : forall s, no_err s = true -> sm_sorted (wbase s) -> forall k,
   whas (wsnap s) k = ROk (kv_has (wbase s) k) /\
-  (forall p st, witer (wsnap s) p st = kv_iterate (wbase s) p st).
+  (forall p st, witer (wsnap s) p st = kv_iterate (wbase s) p st) /\
+  wget (wsnap s) k = match kv_get (wbase s) k with
+                     | Some v => ROk (Some v)
+                     | None => absent_res (wsnap s) k   (* nokeyiserr / skiperrors still act on a snapshot *)
+                     end.
 Proof. exact snapshot_reads. Qed.
 
 (* Writes.  In a stack of batched / skipkeys / nokeyiserr / readonly / cached layers over memorydb whose
@@ -40,7 +44,7 @@ Proof. exact close_settles. Qed.
 Theorem C23x_view_hidden : forall s, wview s = sm_filter (fun k => negb (hidden s k)) (wbase s).
 Proof. exact wview_hidden. Qed.
 Theorem C23x_flush_shows_writes : forall pend u,
-  is_null u = false -> all_empty u = true ->
+  is_null u = false -> base_closed u = false -> all_empty u = true ->
   wbase (l_flush (WBatched pend u)) = wsettled (WBatched pend u) /\
   wpending (l_flush (WBatched pend u)) = [] /\
   wview (l_flush (WBatched pend u)) = sm_filter (fun k => negb (hidden u k)) (wsettled (WBatched pend u)).
@@ -79,6 +83,19 @@ Example C23x_skipkeys_snapshot :
   wget s [107; 1]%N = ROk None /\ witer s [] [] = [] /\
   wget (wsnap s) [107; 1]%N = ROk (Some [9%N]) /\ witer (wsnap s) [] [] = [([107; 1]%N, [9%N])].
 Proof. exact skipkeys_snapshot_shows_hidden. Qed.
+
+(* the cachedproducer reference count and the real memorydb's life cycle (differential-tested; here as
+   computed instances): two handles — the first Close closes nothing, the second really closes (the real
+   memorydb is emptied by Close), the third is refused; after the close Get answers errClosed and Put
+   panics; Drop of an open memorydb panics, Drop after Close works, a second Drop is swallowed. *)
+Example C23x_cached_lifecycle :
+  let s := WCached 1 true (WMem [] false) in
+  xrun 1 (x_init s) [XReopen 0; XPut [97%N] [1%N]; XClose; XGet [97%N]; XClose; XGet [97%N]; XPut [97%N] [1%N];
+                     XClose; XDrop; XDrop]
+  = [BUnit (ROk tt); BUnit (ROk tt); BEnd (ROk tt) [([97%N], [1%N])]; BVal (ROk (Some [1%N]));
+     BEnd (ROk tt) []; BVal (RErr E_CLOSED); BUnit RPanic; BEnd (RErr E_CLOSEMORE) [];
+     BEnd (ROk tt) []; BEnd (ROk tt) []].
+Proof. vm_compute. reflexivity. Qed.
 
 (* non-vacuity: a batched + skipkeys stack; reads before Flush do not see the buffer *)
 Example C23x_batched_example :
